@@ -284,7 +284,9 @@ impl<'o, 'c> XmlFormatter<'o, 'c> {
                 NodeValue::Subscript => {}
                 NodeValue::SpoileredText => {}
                 NodeValue::EscapedTag(ref data) => {
-                    self.output.write_all(data.as_bytes())?;
+                    self.output.write_all(b" tag=\"")?;
+                    self.escape(data.as_bytes())?;
+                    self.output.write_all(b"\"")?;
                 }
                 NodeValue::Alert(ref alert) => {
                     self.output.write_all(b" type=\"")?;
